@@ -5,7 +5,7 @@ guard chains; raising branches are pruned (their negated guard becomes an assump
 Arithmetic is normalised to polynomials over atoms with rational exponents and Gaussian-rational coefficients.
 """
 from __future__ import annotations
-import ast, itertools
+import hashlib, ast, itertools
 from fractions import Fraction as F
 from .prog import Program, Module, params_of
 
@@ -15,6 +15,24 @@ ZERO = (F(0), F(0))
 
 def _akey(a):
     return repr(a)
+
+
+KEY_LIMIT = 60000
+_KSIZE: dict = {}
+
+
+def _ksize(k):
+    """number of nodes of a nested key (memoised on the identity of the shared sub-tuples)"""
+    if not isinstance(k, tuple): return 1
+    c = _KSIZE.get(id(k))
+    if c is not None and c[0] is k: return c[1]
+    n = 1
+    for x in k:
+        n += _ksize(x) if isinstance(x, tuple) else 1
+        if n > 4 * KEY_LIMIT: break
+    if len(_KSIZE) > 400000: _KSIZE.clear()
+    _KSIZE[id(k)] = (k, n)
+    return n
 
 
 class Poly:
@@ -31,6 +49,9 @@ class Poly:
 
     @staticmethod
     def atom(a, e=1):
+        if isinstance(a, tuple) and _ksize(a) > KEY_LIMIT:
+            # a key of this size is an unfolded recursion: it stands for itself (equal keys, equal digest) but is not looked into any further
+            a = ('huge', hashlib.sha1(repr(a).encode()).hexdigest()[:16])
         return Poly({((a, F(e)),): (F(1), F(0))})
 
     def __add__(s, o):
@@ -374,6 +395,7 @@ class Evaluator:
         s.prog = prog
         s.real = set(real_atoms)
         s.facts: dict = {}                 # poly key -> set of relations '>0' '>=0' '<0' '<=0' '!=0' '==0'
+        s._steps = 0; s.step_budget = 400000; s._callstack = []
         s._init_facts = list(facts)
         for p, rel in facts: s.add_fact(p, rel)
         s.assumed: list = []               # (guard, polarity) assumptions from pruned raise branches
@@ -539,6 +561,10 @@ class Evaluator:
     def e__TermNode(s, e, env, mod, depth): return e.term
 
     def ev(s, e, env, mod, depth=0):
+        # a budget of evaluation steps per evaluator: recursive converters unfold exponentially up to the depth limit; beyond the budget the
+        # value is simply not known (UNKNOWN downstream), the analysis itself always terminates
+        s._steps += 1
+        if s._steps > s.step_budget: return Opq('?', 'evaluation budget exhausted')
         m = getattr(s, 'e_' + type(e).__name__, None)
         if m is None: return Opq('?', type(e).__name__ + ':' + ast.unparse(e)[:60])
         return m(e, env, mod, depth)
@@ -1623,6 +1649,16 @@ class Evaluator:
         return s._call_fn(fn, mod, args, kw, closure_env, depth)
 
     def _call_fn(s, fn, mod, args, kw, closure_env, depth):
+        # a function that is already being unfolded twice further up is not unfolded a third time (recursive converters would otherwise
+        # unfold exponentially): the recursive call stays an uninterpreted value
+        if s._callstack.count(id(fn)) >= 4: return Opq('?', 'recursion:' + getattr(fn, 'name', 'λ'))
+        s._callstack.append(id(fn))
+        try:
+            return s._call_fn2(fn, mod, args, kw, closure_env, depth)
+        finally:
+            s._callstack.pop()
+
+    def _call_fn2(s, fn, mod, args, kw, closure_env, depth):
         if isinstance(fn, ast.Lambda):
             env = s.bind_params(fn, mod, args, kw, closure_env, depth)
             return s.ev(fn.body, env, mod, depth)
